@@ -169,6 +169,13 @@ def model_obs(v):
 
 
 def same_class(impl, other):
+    try:
+        return _same_class(impl, other)
+    except (ValueError, TypeError, IndexError):      # a capture that is not what the documented grammar allows
+        return False
+
+
+def _same_class(impl, other):
     """impl observation (capture hidden for SetShardingKey / replaced for InvalidShardingKey)"""
     if impl is None or other is None:
         return impl is None and other is None
@@ -465,7 +472,11 @@ def monitor_session(oracle, settings, queries, outs):
             break
         cmd, cap = want
         chosen = o["pre_state"]["shard"] if cmd == "SetShard" else o["state"]["shard"]
-        kind = doc.apply(cmd, cap, chosen)
+        try:
+            kind = doc.apply(cmd, cap, chosen)
+        except (ValueError, KeyError):
+            problems.append((i, "%r taken as %s with argument %r, which the documented grammar does not allow" % (q, cmd, cap)))
+            break
         if rep[0] != kind:
             problems.append((i, "%r answered with %s, expected %s" % (q, rep[0], kind)))
             break
@@ -540,11 +551,13 @@ def check(run):
     run.assumptions += [
         "Coq 8.16.1 kernel + vm_compute (no native_compute); Print Assumptions: closed under the global context for every theorem",
         "regex crate semantics of the seven patterns (anchors, (?i-u) ASCII case folding, leftmost-first alternation) and String::from_utf8_lossy are environment: the hand-written recogniser is validated against the real try_execute_command on every generated string and by a scan of all Unicode scalar values per pattern letter",
-        "Client::handle_custom_protocol (private async method) is TRANSCRIBED in Model.v `handle` and in harness/src/bin/cmdlang.rs; its reply texts and call targets are extracted from client.rs on every run (Tie.v); a wire-level harness covers it end-to-end separately",
+        "Client::handle_custom_protocol (private async method) is transcribed in Model.v `handle` and in harness/src/bin/cmdlang.rs (library legs); its reply texts and call targets are extracted from client.rs on every run (Tie.v), and the REAL function is exercised by the wire leg: pgcat in-process behind scripted clients and mock backends (harness bin `wire`), replies compared byte-exactly with `handle`+`encode`",
+        "wire leg: the mock backends (harness/src/mockpg.rs) only record what reaches them; pools use query_parser_read_write_splitting = false so that ordinary statements do not move the role (role inference is C05)",
         "Sharder::shard(key) and rand::random() % shards are oracle inputs of the model (read back from the implementation's trace; < shards is checked by the monitor; the hash itself is C06)",
         "pool has >= 1 shard (validated configuration) — SET SHARD TO ANY with 0 shards would divide by zero",
     ]
     run.cov["trusted_base"] = ["coqc 8.16.1 kernel", "vm_compute", "translate/c13_consts.py", "harness/src/bin/cmdlang.rs (glue transcription of handle_custom_protocol)",
+                               "harness/src/bin/wire.rs + mockpg.rs + props/wirelib.py (in-process pgcat, mock backends, scripted client)", "props/c06.py pg_partition (Python transcription of PostgreSQL's hash partitioning, oracle for SET SHARDING KEY on the wire)",
                                "props/c13.py (generators, Python re oracle, monitor)", "coq/Cmd/Spec.v as the reading of the documented commands"]
     # 1. translate
     tr_ok, tr_msg = translate(run)
@@ -649,7 +662,7 @@ def check(run):
             run.violation("counterexample" if not same_class(impl[i], docv) else "tie-broken",
                           "query %r: implementation %s, Python re on the source's regex literals %s, documented language %s" % (q, impl[i], pyo[i], docv),
                           {"kind_of_input": "classify", "correspondence": "try_execute_command vs regex literals", "input": {"hex": q.hex(), "text": q.decode("utf-8", "replace")},
-                           "impl": str(impl[i]), "python_re": str(pyo[i]), "documented": str(docv)})
+                           "impl": str(impl[i]), "python_re": str(pyo[i]), "documented": str(docv)}, found_input=not same_class(impl[i], docv))
             n_dis += 1
         elif i in coqv:
             run.cov["traces_validated_against_impl"] += 1
@@ -658,7 +671,7 @@ def check(run):
                 run.violation("counterexample" if not same_class(impl[i], docv) else "tie-broken",
                               "query %r: implementation %s, Coq classify %s, documented language %s" % (q, impl[i], coqv[i], docv),
                               {"kind_of_input": "classify", "correspondence": "Cmd/Model.v classify vs try_execute_command", "input": {"hex": q.hex(), "text": q.decode("utf-8", "replace")},
-                               "impl": str(impl[i]), "model": str(coqv[i]), "documented": str(docv)})
+                               "impl": str(impl[i]), "model": str(coqv[i]), "documented": str(docv)}, found_input=not same_class(impl[i], docv))
                 n_dis += 1
         if n_dis >= 5:
             break
@@ -711,6 +724,10 @@ def check(run):
         evals += encoders(run, binp, quick, distinct, samples, dist)
 
     run.log("encoders done")
+    # 4f. the real Client::handle_custom_protocol on the wire ---------------------------------
+    if not run.violations:
+        evals += check_wire(run, quick, proof_ok, doc_oracle, distinct, samples, dist)
+    run.log("wire done")
     run.cov["evaluations"] = evals
     run.cov["distinct_nontrivial"] = len(distinct) + dist.get("fold_scan_code_points_x_positions", 0)
     run.cov["distinct_breakdown"] = {"query_strings_sessions_encoder_inputs (set size)": len(distinct),
@@ -718,7 +735,7 @@ def check(run):
     run.cov["rule"] = ("classification: exhaustive strings of 1..%d tokens over a %d-token vocabulary; every valid token sequence with one token deleted/inserted/replaced/duplicated/swapped; "
                        "all spellings (case x quotes x leading/trailing blanks x ';'); character edits, junk before/after, embedding, two commands per message, tab/newline/NBSP for space; "
                        "numeric arguments of 1..40 digits incl. leading zeros and the i64/usize boundaries; non-ASCII look-alikes and invalid UTF-8; all 1,112,063 Unicode scalar values in each letter class (fold scan). "
-                       "sessions: seeded random command sequences (length 1..8) under varied pool settings. encoders: random strings. distinct = distinct query byte strings + distinct sessions + distinct encoder inputs"
+                       "sessions: seeded random command sequences (length 1..8) under varied pool settings. encoders: random strings. wire: scripted client sessions (3-10 SETs in random spellings, each followed by SHOWs, interleaved with tagged ordinary statements and near-miss texts) against pgcat in-process with 3 shards x (primary, replica), parser on/off: reply bytes vs handle+encode, command text never at a backend, non-commands byte-identical at exactly one backend of the selected shard / role. distinct = distinct query byte strings + distinct sessions + distinct encoder inputs"
                        % (4 if quick else 5, len(TOKENS)))
     run.cov["samples"] = samples[:10]
     run.cov["input_distribution"] = dist
@@ -732,7 +749,7 @@ def check(run):
         if w:
             run.violation("counterexample", "%s no longer checks and the implementation deviates from the documented command language on %r: implementation %s, documented %s" % (tie_name, w["text"], w["impl"], w["documented"]),
                           {"theorem": tie_name, "kind_of_input": "classify", "input": w, "log": (tie_log or "")[-2500:]})
-        elif not any(found for _, _, found in run.violations):
+        else:
             run.violation("tie-broken", "%s no longer checks; no query on which the implementation deviates from the documented language was found" % tie_name,
                           {"theorem": tie_name, "log": (tie_log or "")[-2500:], "extracted": _INFO}, found_input=False)
     elif not proof_ok and not run.violations and not run.broken:
@@ -988,8 +1005,289 @@ def replay(run, path):
         rb = bytes.fromhex(res[0]["out"][0]["reply"])
         print("replay: real reply %s -> parsed %s" % (rb[:120].hex(), parse_reply(rb)))
         return 0 if parse_reply(rb) else 1
+    if kind == "wire":
+        from props import wirelib as W
+        ok, blog, wb = vlib.cargo_build(["wire"])
+        items = [tuple(x) for x in inp["items"]]
+        res = W.run_scenario(wb["wire"], wire_scenario(inp["settings"], items), timeout=90)
+        replies, landed, forwarded, err = wire_observe(res, items)
+        if err:
+            print("replay:", err); return 1
+        problems = monitor_wire(oracle, inp["settings"], items, replies, landed, forwarded)
+        for (k, text, tag), raw in zip(items, replies):
+            print("  %-50r %s" % (text, (parse_reply(raw) if k == "cmd" else landed.get(tag, ("?",))[0])))
+        print("replay: monitor problems %s" % (problems,))
+        return 1 if problems else 0
     if kind == "raw":
         res = run_cases(binp, [{"settings": {"shards": 5}, "steps": [{"op": "raw", "hex": inp["hex"]}]}])
         print("replay:", res[0]["out"][0])
         return 1 if "panic" in res[0]["out"][0] else 0
     return 0
+
+
+# ------------------------------------------------------------------------------ wire leg
+# The REAL Client::handle_custom_protocol: pgcat in-process (harness bin `wire`), 3 shards with a
+# primary and a replica each, scripted sessions of commands interleaved with tagged statements.
+WIRE_BACKENDS = ["s0", "s0r", "s1", "s1r", "s2", "s2r"]
+WIRE_SHARD = {"s0": 0, "s0r": 0, "s1": 1, "s1r": 1, "s2": 2, "s2r": 2}
+WIRE_NSH = 3
+
+
+def wire_toml(parser, preads):
+    from props import wirelib as W
+    return W.make_toml(pools={"db": {
+        "opts": {"query_parser_enabled": parser, "query_parser_read_write_splitting": False, "primary_reads_enabled": preads,
+                 "default_role": "any", "sharding_function": "pg_bigint_hash"},
+        "users": [{"pool_size": 2}],
+        "shards": [{"servers": [["s0", "primary"], ["s0r", "replica"]]}, {"servers": [["s1", "primary"], ["s1r", "replica"]]},
+                   {"servers": [["s2", "primary"], ["s2r", "replica"]]}]}})
+
+
+def respell(rng, q):
+    """a random member of the spelling class of a valid command text: case, blanks, ';'"""
+    k = rng.random()
+    if k < 0.3:
+        q = q.lower()
+    elif k < 0.5:
+        q = "".join(c.upper() if rng.random() < 0.5 else c.lower() for c in q)
+    elif k < 0.6:
+        q = q.title()
+    return rng.choice(["", "", " ", "   "]) + q + rng.choice(["", "", ";", " ;", "; ", "  ", " ;  "])
+
+
+def gen_wire_session(rng, t):
+    """[(kind, text, tag)]: kind 'cmd' (a documented command in some spelling) or 'stmt' (anything else, tagged)"""
+    items = []
+    ntag = [0]
+
+    def stmt(sql):
+        tag = "t%d_%d" % (t, ntag[0])
+        ntag[0] += 1
+        items.append(("stmt", "%s /*%s*/" % (sql, tag), tag))
+
+    def shows(first=None):
+        ss = ["SHOW SHARD", "SHOW SERVER ROLE", "SHOW PRIMARY READS"]
+        rng.shuffle(ss)
+        if first:
+            ss.remove(first)
+            ss.insert(0, first)
+        for x in ss[: rng.choice([1, 2, 3, 3])]:
+            items.append(("cmd", respell(rng, x), None))
+
+    quote = lambda v: rng.choice(["%s", "'%s'", "'%s'", "%s'", "'%s"]) % v       # noqa: E731
+    for _ in range(rng.randint(3, 10)):
+        r = rng.random()
+        if r < 0.3:
+            v = rng.choice(["0", "1", "2", "2", "3", "7", "002", "0000", "ANY", "any", "Any", "99999999999999999999999", "18446744073709551615", "18446744073709551616",
+                            str(rng.getrandbits(rng.choice([3, 16, 64, 70])))])
+            items.append(("cmd", respell(rng, "SET SHARD TO " + quote(v)), None))
+            shows("SHOW SHARD")
+        elif r < 0.5:
+            v = rng.choice([str(rng.getrandbits(rng.choice([4, 31, 62, 63]))), "9223372036854775807", "9223372036854775808", "0", "000123", "1" + "0" * 39])
+            items.append(("cmd", respell(rng, "SET SHARDING KEY TO " + rng.choice(["%s", "'%s'"]) % v), None))
+            shows("SHOW SHARD")
+        elif r < 0.7:
+            v = rng.choice(["primary", "replica", "any", "auto", "default"])
+            v = rng.choice([v, v.upper(), v.title()])
+            items.append(("cmd", respell(rng, "SET SERVER ROLE TO '%s'" % v), None))
+            shows("SHOW SERVER ROLE")
+        elif r < 0.85:
+            v = rng.choice(["on", "off", "default", "ON", "Off", "DEFAULT"])
+            items.append(("cmd", respell(rng, "SET PRIMARY READS TO " + rng.choice(["%s", "'%s'"]) % v), None))
+            shows("SHOW PRIMARY READS")
+        else:
+            stmt(rng.choice(["SET SHARD TO 1; SELECT 1", "SELECT 1; SET SHARD TO 2", "SET SHARD TO -1", "SHOW SHARDS", "SHOW SHARD;;", "SET SERVER ROLE TO primary",
+                             "SELECT 'SET SHARD TO 1'", "SET  SHARD TO 1", "SHOW\tSHARD", "SET SHARDING KEY TO 'abc'", "SET PRIMARY READS TO yes", "SET SHARD TO 0; SELECT 42"]))
+        for _ in range(rng.choice([0, 1, 1, 2])):
+            stmt(rng.choice(["SELECT 1", "SELECT 2", "INSERT INTO t VALUES (1)", "UPDATE t SET a = 1", "SELECT now()"]))
+    return items
+
+
+def qframe(sql: bytes) -> bytes:
+    return b"Q" + struct.pack(">i", len(sql) + 5) + sql + b"\0"
+
+
+def monitor_wire(oracle, settings, items, replies, landed, forwarded):
+    """the property on what the client and the mock backends saw; no model involved.
+    replies[i]: raw bytes the client read for item i; landed[tag] = (backend, raw hex);
+    forwarded: every simple-query text that reached any backend."""
+    from props.c06 import pg_partition
+    doc = DocState(settings)
+    pending_any = False
+    problems = []
+    for sql in forwarded:
+        if oracle.classify(sql.encode("utf-8", "replace")) is not None:
+            problems.append((-1, "the command %r was forwarded to a server" % sql))
+            return problems
+    for i, ((kind, text, tag), raw) in enumerate(zip(items, replies)):
+        q = text.encode()
+        want = oracle.classify(q)
+        if want is None:
+            if tag not in landed:
+                problems.append((i, "the ordinary statement %r did not reach any server" % text))
+                break
+            be, rawhex, times = landed[tag]
+            if times != 1 or bytes.fromhex(rawhex) != qframe(q):
+                problems.append((i, "the ordinary statement %r reached the server %d time(s) as %s" % (text, times, rawhex)))
+                break
+            sh = 0 if doc.shard is None else doc.shard
+            if pending_any:
+                problems.append((i, "generator: statement before the SHOW SHARD that fixes ANY"))
+                break
+            if WIRE_SHARD[be] != sh:
+                problems.append((i, "statement %r ran on %s (shard %d) but the selected shard is %s" % (text, be, WIRE_SHARD[be], sh)))
+                break
+            if doc.role in ("primary", "replica") and be.endswith("r") != (doc.role == "replica"):
+                problems.append((i, "statement %r ran on %s although SET SERVER ROLE established %s" % (text, be, doc.role)))
+                break
+            continue
+        if tag in landed if tag else False:
+            problems.append((i, "command reached a server"))
+            break
+        rep = parse_reply(raw)
+        if rep is None:
+            problems.append((i, "reply to %r is not a well-formed message sequence ending in ReadyForQuery: %s" % (text, raw.hex())))
+            break
+        cmd, cap = want
+        if cmd == "SetShard" and cap.lower() == b"any":
+            kindw = "ok"
+            pending_any = True
+        else:
+            chosen = pg_partition(int(cap), WIRE_NSH) if cmd == "SetShardingKey" and int(cap) <= I64_MAX else None
+            kindw = doc.apply(cmd, cap, chosen)
+            if cmd in ("SetShard", "SetShardingKey") and kindw == "ok":
+                pending_any = False
+        if rep[0] != kindw:
+            problems.append((i, "%r answered with %s, expected %s" % (text, rep[0], kindw)))
+            break
+        if kindw == "ok" and rep[1] != OK_TAG[cmd]:
+            problems.append((i, "%r: CommandComplete tag %r" % (text, rep[1])))
+            break
+        if kindw == "show":
+            if rep[1] != SHOW_NAME[cmd]:
+                problems.append((i, "%r: column %r" % (text, rep[1])))
+                break
+            if cmd == "ShowShard" and pending_any:
+                if not (rep[2].isdigit() and int(rep[2]) < WIRE_NSH):
+                    problems.append((i, "after SET SHARD TO ANY, SHOW SHARD reports %r (%d shards)" % (rep[2], WIRE_NSH)))
+                    break
+                doc.shard, pending_any = int(rep[2]), False
+            elif rep[2] != doc.show(cmd):
+                problems.append((i, "%r reports %r but the preceding SETs established %r" % (text, rep[2], doc.show(cmd))))
+                break
+    return problems
+
+
+def wire_observe(res, items):
+    """(replies, landed, forwarded, error)"""
+    if "harness_error" in res or "start_error" in res:
+        return None, None, None, "wire harness failed: %s" % (res.get("harness_error") or res.get("start_error"))
+    recvs = [e for e in res["events"] if e.get("ev") == "recv" and e.get("who") == "c1"]
+    if len(recvs) != len(items) or any(e.get("outcome") != "ok" for e in recvs):
+        bad = next((i for i, e in enumerate(recvs) if e.get("outcome") != "ok"), len(recvs))
+        return None, None, None, "no complete reply (ending in ReadyForQuery) to step %d %r: outcomes %s, task results %s" % (
+            bad, items[bad][1] if bad < len(items) else None, [e.get("outcome") for e in recvs][-3:], res.get("task_results"))
+    replies = [bytes.fromhex(e["raw"]) for e in recvs]
+    landed, forwarded = {}, []
+    for e in res["events"]:
+        if e.get("ev") == "msg" and e.get("tag") == "Q":
+            sql = e["detail"].get("sql") or ""
+            forwarded.append(sql)
+            m = re.search(r"/\*(t\d+_\d+)\*/", sql)
+            if m:
+                prev = landed.get(m.group(1))
+                landed[m.group(1)] = (e["who"], e["detail"]["raw"], 1 + (prev[2] if prev else 0))
+    return replies, landed, forwarded, None
+
+
+def wire_scenario(settings, items):
+    steps = [{"op": "connect", "c": "c1", "params": {"user": "u", "database": "db"}, "password": "pw"}]
+    for i, (kind, text, tag) in enumerate(items):
+        steps += [{"op": "send", "c": "c1", "msgs": [{"t": "Q", "sql": text}]}, {"op": "recv", "c": "c1", "until": "Z", "timeout_ms": 4000, "label": "i%d" % i}]
+    return {"backends": [{"name": n} for n in WIRE_BACKENDS], "toml": wire_toml(settings["parser"], settings["primary_reads"]), "hex": True, "steps": steps}
+
+
+def check_wire(run, quick, proof_ok, oracle, distinct, samples, dist):
+    from props import wirelib as W
+    from props.c06 import pg_partition
+    ok, blog, bins = vlib.cargo_build(["wire"])
+    if not ok:
+        run.violation("tie-broken", "wire harness does not build against /repo", {"correspondence": "wire harness build", "log": blog[-3000:]}, found_input=False)
+        return 0
+    wire = bins["wire"]
+    rng = run.rng
+    nsess = 100 if quick else 1200
+    metas, scns = [], []
+    for t in range(nsess):
+        settings = {"shards": WIRE_NSH, "parser": t % 2 == 0, "primary_reads": rng.random() < 0.6}
+        if t == 0:      # the restore after a refused SET SHARD, big numbers, every SHOW: always present
+            items = [("cmd", "SET SHARD TO 2", None), ("cmd", "SHOW SHARD", None), ("stmt", "SELECT 1 /*t0_0*/", "t0_0"), ("cmd", "SET SHARD TO 7", None), ("cmd", "SHOW SHARD", None),
+                     ("stmt", "SELECT 2 /*t0_1*/", "t0_1"), ("cmd", "set shard to '99999999999999999999999';", None), ("cmd", "SHOW SHARD", None),
+                     ("cmd", "SET SHARDING KEY TO 9223372036854775808", None), ("cmd", "SHOW SHARD", None), ("cmd", "SET SHARDING KEY TO '12'", None), ("cmd", "SHOW SHARD", None),
+                     ("stmt", "SET SHARD TO 0; SELECT 42 /*t0_2*/", "t0_2"), ("cmd", "SET SERVER ROLE TO 'Replica'", None), ("cmd", "SHOW SERVER ROLE", None), ("stmt", "SELECT 3 /*t0_3*/", "t0_3"),
+                     ("cmd", "SET PRIMARY READS TO OFF", None), ("cmd", "SHOW PRIMARY READS", None), ("cmd", "SET SERVER ROLE TO 'default'", None), ("cmd", "SHOW SERVER ROLE", None)]
+        else:
+            items = gen_wire_session(rng, t)
+        metas.append((settings, items))
+        scns.append(wire_scenario(settings, items))
+    results = W.run_scenarios(wire, scns, timeout=90)
+    n, ncmd, nstmt = 0, 0, 0
+    exprs, keep = [], []
+    for (settings, items), scn, res in zip(metas, scns, results):
+        replies, landed, forwarded, err = wire_observe(res, items)
+        rp = {"kind_of_input": "wire", "input": {"settings": settings, "items": items}}
+        if err:
+            if err.startswith("wire harness failed"):
+                run.broken.append(err)
+            else:
+                run.violation("counterexample", "wire session %s under %s: %s" % ([x[1] for x in items], settings, err), rp)
+            return n
+        problems = monitor_wire(oracle, settings, items, replies, landed, forwarded)
+        if problems:
+            i, msg = problems[0]
+            run.violation("counterexample", "wire session %s under %s: step %d: %s" % ([x[1] for x in items[:i + 1]] if i >= 0 else [x[1] for x in items], settings, i, msg), dict(rp, monitor=msg))
+            return n
+        # the model's inputs: environment choices read back from the trace
+        steps = []
+        for i, (kind, text, tag) in enumerate(items):
+            want = oracle.classify(text.encode())
+            orc = 0
+            if want and want[0] == "SetShard" and want[1].lower() == b"any":
+                nxt = next((j for j in range(i + 1, len(items)) if (oracle.classify(items[j][1].encode()) or ("",))[0] == "ShowShard"), None)
+                orc = int(parse_reply(replies[nxt])[2]) if nxt is not None else 0
+            elif want and want[0] == "SetShardingKey" and int(want[1]) <= I64_MAX:
+                orc = pg_partition(int(want[1]), WIRE_NSH)
+            steps.append("(%s, %d)" % (vlib.coq_bytes(text.encode()), orc))
+        env = env_expr(settings)
+        exprs.append("session_obs %s (init %s) [%s]" % (env, env, "; ".join(steps)))
+        keep.append((settings, items, replies, landed))
+        ncmd += sum(1 for x in items if x[0] == "cmd")
+        nstmt += sum(1 for x in items if x[0] == "stmt")
+    if proof_ok:
+        vals = vlib.coq_eval("c13w", PRE, exprs, shard=max(1, (len(exprs) + 15) // 16))
+        for (settings, items, replies, landed), v in zip(keep, vals):
+            mo = vlib.parse_coq(v)
+            distinct.add(("wire", json.dumps(settings, sort_keys=True), tuple(x[1] for x in items)))
+            for i, ((kind, text, tag), raw, m) in enumerate(zip(items, replies, mo)):
+                mc, mv, mpre, mrep, mpost = m
+                n += 1
+                run.cov["traces_validated_against_impl"] += 1
+                rp = {"kind_of_input": "wire", "correspondence": "Cmd/Model.v handle+encode vs the real Client::handle_custom_protocol on the wire",
+                      "input": {"settings": settings, "items": items[:i + 1]}}
+                if kind == "cmd":
+                    if bytes(mrep) != raw:
+                        run.violation("tie-broken", "wire session %s under %s: reply to step %d: pooler sent %s, model %s" % ([x[1] for x in items[:i + 1]], settings, i, raw.hex(), bytes(mrep).hex()),
+                                      dict(rp, impl=raw.hex(), model=bytes(mrep).hex()), found_input=False)
+                        return n
+                else:
+                    sh, role = coq_obs_state(mpost)[0], coq_obs_state(mpost)[1]
+                    be = landed[tag][0]
+                    if mc != 99 or WIRE_SHARD[be] != (sh or 0) or (role in (1, 2) and be.endswith("r") != (role == 2)):
+                        run.violation("tie-broken", "wire session %s under %s: statement of step %d ran on %s; model: %s, shard %s, role %s" % ([x[1] for x in items[:i + 1]], settings, i, be, "a command" if mc != 99 else "forwarded", sh, role),
+                                      dict(rp, impl=be, model=str(m)), found_input=False)
+                        return n
+    dist["wire_sessions"] = len(keep)
+    dist["wire_commands_byte_compared"] = ncmd
+    dist["wire_statements_routed"] = nstmt
+    samples.append({"kind": "wire", "settings": metas[0][0], "session": [x[1] for x in metas[0][1]], "replies_hex": [r.hex()[:40] for r in (keep[0][2] if keep else [])][:6]})
+    return n
